@@ -99,12 +99,12 @@ def textual_audit():
     return hits
 
 
-def axiom_audit(module: str, theorems: list[str], timeout=900):
+def axiom_audit(module: str, theorems: list[str], timeout=900, extra_modules=()):
     """#print axioms for every property theorem; returns (per-theorem axioms dict, problems)"""
     d = LEAN / '.lake' / 'audit'
     d.mkdir(parents=True, exist_ok=True)
     f = d / (module.replace('.', '_') + '.lean')
-    f.write_text(f'import {module}\n' + ''.join(f'#print axioms {t}\n' for t in theorems))
+    f.write_text(''.join(f'import {m}\n' for m in [module, *extra_modules]) + ''.join(f'#print axioms {t}\n' for t in theorems))
     with LakeLock():
         rc, out = sh(['lake', 'env', 'lean', str(f)], cwd=LEAN, timeout=timeout)
     res, problems = {}, []
@@ -246,13 +246,18 @@ def size_of(x) -> int:
     return len(json.dumps(x, ensure_ascii=False, default=str))
 
 
+def prop_modules(prop):
+    """the Lean modules that hold a property's theorems"""
+    return [prop.LEAN_MODULE] + list(getattr(prop, 'EXTRA_MODULES', []))
+
+
 def write_evidence(ctx: Ctx, prop, obligations, discharged, axioms, violations, extra=None):
     EVIDENCE.mkdir(exist_ok=True)
     cov = {
         'obligations': max(1, len(obligations)),
         'discharged': discharged,
-        'checker_cmd': f'cd lean && lake build {prop.LEAN_MODULE} && lake env lean .lake/audit/{prop.LEAN_MODULE.replace(".", "_")}.lean'
-                       + (' && lake env leanchecker ' + prop.LEAN_MODULE if ctx.tier == 'thorough' else ''),
+        'checker_cmd': f'cd lean && lake build {" ".join(prop_modules(prop))} && lake env lean .lake/audit/{prop.LEAN_MODULE.replace(".", "_")}.lean'
+                       + (' && lake env leanchecker ' + ' '.join(prop_modules(prop)) if ctx.tier == 'thorough' else ''),
         'trusted_base': TRUSTED_BASE + list(getattr(prop, 'TRUSTED_EXTRA', [])),
         'theorems': [{'name': t, 'axioms': axioms.get(t)} for t in obligations],
         'evaluations': max(1, ctx.evaluations),
